@@ -261,6 +261,60 @@ def generate():
         out.append("Definition %s : list (string * string) := %s.%s" % (
             name, astlib.coq_list(items), "" if why is None else "  (* shape not recognised: %s *)" % why))
 
+    def compiled_tables():
+        m = astlib.module("klongpy/compiler.py")
+        ops_node = astlib.module_assign(m, "_REDUCE_SCAN_OPS")
+        if not isinstance(ops_node, ast.Set):
+            raise ShapeError("_REDUCE_SCAN_OPS is not a set literal")
+        ops = [_str_const(e) for e in ops_node.elts]
+        b = astlib.module("klongpy/backends/numpy_backend.py")
+        fn = astlib.find_func(astlib.find_class(b, "NumpyBackendProvider"), "_ir_to_source")
+        tables, templates = {}, {}
+        for st in fn.body:
+            if isinstance(st, ast.If) and isinstance(st.test, ast.Compare) and ast.unparse(st.test.left) == "node_type":
+                kind = astlib.const(st.test.comparators[0])
+                if kind not in ("reduce", "scan"):
+                    continue
+                for n in st.body:
+                    if isinstance(n, ast.Assign) and ast.unparse(n.targets[0]) == "method":
+                        v = n.value
+                        if not (isinstance(v, ast.Call) and isinstance(v.func, ast.Attribute) and v.func.attr == "get"
+                                and isinstance(v.func.value, ast.Dict) and ast.unparse(v.args[0]) == "op"):
+                            raise ShapeError("%s: method = {...}.get(op) expected" % kind)
+                        tables[kind] = [(_str_const(k), _str_const(x)) for k, x in zip(v.func.value.keys, v.func.value.values)]
+                rets = [n for n in st.body if isinstance(n, ast.Return) and isinstance(n.value, ast.JoinedStr)]
+                if len(rets) != 1:
+                    raise ShapeError("%s: one f-string return expected" % kind)
+                templates[kind] = ast.unparse(rets[0].value)
+        if set(tables) != {"reduce", "scan"}:
+            raise ShapeError("reduce / scan tables not found")
+        return ops, tables, templates
+    v, why = astlib.try_flag(compiled_tables)
+    ops, tables, templates = v if v else ([], {"reduce": [], "scan": []}, {"reduce": "", "scan": ""})
+    note = "" if why is None else "  (* shape not recognised: %s *)" % why
+    out.append("(* the expression compiler: compiler.py _REDUCE_SCAN_OPS, numpy_backend._ir_to_source reduce / scan tables *)")
+    out.append("Definition redscan_ops : list string := %s.%s" % (astlib.coq_list([_s(x) for x in sorted(ops)]), note))
+    for name, kind in (("compiled_reduce", "reduce"), ("compiled_scan", "scan")):
+        items = ["(%s, %s)" % (_s(k), _s(a)) for k, a in sorted(tables[kind], key=lambda e: e[0])]
+        out.append("Definition %s : list (string * string) := %s." % (name, astlib.coq_list(items)))
+        out.append("Definition %s_template : string := %s." % (name, _s(templates[kind])))
+
+    def while_tests():
+        m = astlib.module("klongpy/adverbs.py")
+        res = []
+        for fname in ("eval_adverb_while", "eval_adverb_scan_while"):
+            fn = astlib.find_func(m, fname)
+            loops = [n for n in ast.walk(fn) if isinstance(n, ast.While)]
+            if len(loops) != 1:
+                raise ShapeError("%s: one while loop expected" % fname)
+            res.append(ast.unparse(loops[0].test))
+        return res
+    v, why = astlib.try_flag(while_tests)
+    v = v or ["", ""]
+    out.append("(* the loop tests of eval_adverb_while / eval_adverb_scan_while (Python truth of the evaluated predicate) *)")
+    out.append("Definition while_test : string := %s.%s" % (_s(v[0]), "" if why is None else "  (* shape not recognised: %s *)" % why))
+    out.append("Definition scan_while_test : string := %s." % _s(v[1]))
+
     def guard():
         m = astlib.module("klongpy/adverbs.py")
         fn = astlib.find_func(m, "_has_zero_divisor")
